@@ -2,12 +2,16 @@
    add_cell, hex_vertices, sheet circulators).  Statements only; proofs are `exact <lemma>` (Mesh/HexProofs.v); Print
    Assumptions under each theorem.  Honest scope:
 
-   * hex_shape (valences 4 / 6): invariant over the same class of histories as C15's tet_shape (`_partial`).
+   * hex_shape (valences 4 / 6): invariant over the same class of histories as C15's tet_shape (`_partial`: everything
+     except physical removal in slow immediate mode and set_face / set_cell).
    * the checked add_cell: case analysis proved for every state and list (rejection leaves the mesh unchanged, what is
      stored); "accepted => documented layout" is proved for the direct path in the form "the stored list passes the
      library's ordering check in the new state" and, for the re-ordering path, decided over ALL 720 orderings of the
      canonical cube's halffaces (whole domain of permutations, one cube); for arbitrary meshes the re-ordering path is
      carried by the lock-step correspondence (`_partial`).
+   * "accepted with check => layout" is REFUTED in general (C16_checked_add_cell_layout_refuted: a closed surface of six
+     quads that is not a cube is accepted through the re-ordering path and stored with its first two halffaces sharing
+     a vertex; replayed on the library).
    * the design-phase lead is decided: a list whose first halfface has a neighbour for each of its four halfedges never
      reaches the invalid handle (C16_reordering_has_no_invalid_handle), a list that is not a hexahedron can
      (C16_checked_add_cell_invalid_handle_refuted: UB on live quad halffaces - a finding, replayed on the library).
@@ -67,6 +71,15 @@ Theorem C16_checked_add_cell_invalid_handle_refuted :
   hex_valid s (HK (AddCell [5; 7; 9; 11; 3; 12] true)) = true /\ hex_step s (HK (AddCell [5; 7; 9; 11; 3; 12] true)) = HRUB.
 Proof. exact checked_add_cell_ub_refuted. Qed.
 Print Assumptions C16_checked_add_cell_invalid_handle_refuted.
+
+(* full statement (refuted): forall s hfs s' c, hex_step s (HK (AddCell hfs true)) = HROk s' (Some c) -> hex_layout s' (cell_at s' c) = true *)
+Theorem C16_checked_add_cell_layout_refuted :
+  let s := hex_run weird_sphere in
+  exists s', hex_step s (HK (AddCell [0; 2; 4; 6; 8; 10] true)) = HROk s' (Some 0) /\
+             cell_at s' 0 = [0; 10; 2; 6; 4; 8] /\ hex_layout s' (cell_at s' 0) = false /\
+             hex_vertices s' 0 = Some [0; 3; 2; 1; 4; 5; 6; 0].
+Proof. exact checked_add_cell_layout_refuted. Qed.
+Print Assumptions C16_checked_add_cell_layout_refuted.
 
 Theorem C16_every_ordering_of_a_cube_is_reordered : forall p, In p (perms [0; 2; 4; 6; 8; 10]) ->
   exists s', hex_add_cell cube_faces p true = HOk s' (Some 0) /\
